@@ -76,6 +76,20 @@ int main(int argc, char** argv) {
             ProgramOptions o; ProgramOptions ref;
             if (!parse(o, {std::string("--") + g.opt, g.val}) ) { printf("MISMATCH option --%s %s refused\n", g.opt, g.val); bad++; continue; }
             parse(ref, {});
+            // the same value given in a config file only (C20: the config file is the second source of every option)
+            ProgramOptions oc;
+            {
+                std::ofstream cf(dir + "/one.cfg"); cf << g.opt << "=" << g.val << "\n";
+            }
+            bool cfg_ok = parse(oc, {"-c", dir + "/one.cfg"});
+            if (!cfg_ok) { printf("MISMATCH option %s=%s refused in a config file\n", g.opt, g.val); bad++; }
+            for (auto& a : accs) if (cfg_ok && std::string(a.name) == g.acc) {
+                std::string got = a.get(oc);
+                double gv = atof(got.c_str()), wv = atof(g.val);
+                bool numeric = (std::string(g.val).find_first_not_of("0123456789.-+e") == std::string::npos);
+                bool ok = numeric ? (std::fabs(gv - wv) <= 1e-6 * (std::fabs(wv) + 1e-30)) : (got == g.val);
+                if (!ok) { printf("MISMATCH %s() = %s after %s=%s in the config file\n", g.acc, got.c_str(), g.opt, g.val); bad++; }
+            }
             for (auto& a : accs) if (std::string(a.name) == g.acc) {
                 std::string got = a.get(o), dflt = a.get(ref);
                 // the accessor shows the given value: numerically equal (or the same text), and different from the default
